@@ -63,7 +63,11 @@ func (e *Engine) recvEnabled(o *Object) *Term {
 	if o.Ctx != nil {
 		return e.ctxCancelled(o.Ctx)
 	}
-	return tb.Or(tb.Cmp(OpSLT, tb.Int(0), o.N), o.Closed)
+	r := tb.Or(tb.Cmp(OpSLT, tb.Int(0), o.N), o.Closed)
+	if o.OfferG != nil {
+		r = tb.Or(r, o.OfferG)
+	}
+	return r
 }
 
 // enqueue under the current guard (caller established that there is room).
@@ -97,6 +101,27 @@ func (e *Engine) dequeue(o *Object, et types.Type) (Value, *Term) {
 		return e.zero(et), tb.False
 	}
 	g := e.G
+	nonEmpty := tb.Cmp(OpSLT, tb.Int(0), o.N)
+	z := e.zero(et)
+	if o.OfferG != nil && !o.OfferG.IsFalse() {
+		// a sender offered by the harness hands over its value when the buffer is empty
+		take := tb.And(o.OfferG, tb.Not(nonEmpty))
+		ov := o.OfferV
+		o.OfferG = tb.And(o.OfferG, tb.Not(tb.And(g, take)))
+		if o.Cap == 0 {
+			return e.iteVal(take, ov, z), take
+		}
+		v, ok := e.dequeueBuf(o, et, tb.And(g, tb.Not(take)))
+		return e.iteVal(take, ov, v), tb.Or(take, ok)
+	}
+	if o.Cap == 0 {
+		return z, tb.False
+	}
+	return e.dequeueBuf(o, et, g)
+}
+
+func (e *Engine) dequeueBuf(o *Object, et types.Type, g *Term) (Value, *Term) {
+	tb := e.tb
 	nonEmpty := tb.Cmp(OpSLT, tb.Int(0), o.N)
 	z := e.zero(et)
 	if o.Cap == 0 {
